@@ -38,7 +38,7 @@ theorem mono_reps_kinds (hs : NSC h j) (cur upd : String) :
     rcases (hs.settled c hcm).2 with hfs | hrr
     · exact Or.inr (Or.inl hfs)
     · left
-      refine ⟨?_, (hs.norm.pods c hcm).2.2.2.2.2.2.2, hrr, (hs.settled c hcm).1⟩
+      refine ⟨?_, (hs.norm.pods c hcm).2.2.2.2.2.2, hrr, (hs.settled c hcm).1⟩
       unfold Pod.runningAndReady at hrr
       simp only [Bool.and_eq_true, beq_iff_eq] at hrr
       simp [Pod.fs, Pod.failed, Pod.succeeded, hrr.1]
@@ -65,16 +65,11 @@ theorem recon_mono (hk : MonoK0 h j) :
   have hs := hk.1
   have hn := hs.norm
   have hpar := hk.2.1
-  have hord : ∀ p ∈ j.pods.map (·.pod), p.ord < maxInt32 := by
-    intro p hp
-    rw [List.mem_map] at hp
-    obtain ⟨c, hc, rfl⟩ := hp
-    exact (hn.pods c hc).2.2.2.2.2.1
   unfold NormC.recon updateStatefulSet
   cases hp : prepare j.view hn.curRev.name hn.updRev.name (j.pods.map (·.pod)) with
   | error e =>
     obtain ⟨st, o⟩ := e
-    exact absurd hp (prepare_calm j.view _ _ _ (replicasOf j.view) hn.spec.rep (bOf_le hn) hord st o)
+    exact absurd hp (prepare_calm' j.view _ _ _ (replicasOf j.view) hn.spec.rep st o)
   | ok p =>
     simp only [hn.spec.del, Bool.false_eq_true, if_false]
     obtain ⟨_, hreps, hcond, _, _⟩ := L1c.prepare_ok hn.spec.rep hp
